@@ -743,8 +743,10 @@ func glue(s *gencode.Surface) string {
 	for _, t := range s.TypeNames {
 		fmt.Fprintf(&b, "\ttypes[%q] = reflect.TypeOf((*api.%s)(nil)).Elem()\n", t, t)
 	}
-	b.WriteString("\tmkServer = func(mw middleware.Middleware) (http.Handler, error) { return api.NewServer(handler{}, api.WithMiddleware(mw)) }\n")
+	b.WriteString("\tmkServer = func(mw middleware.Middleware) (http.Handler, error) { return api.NewServer(handler{}, api.WithMiddleware(passThrough, mw, passThrough)) }\n")
 	b.WriteString("\tmkClient = func(url string, c *http.Client) (any, error) { return api.NewClient(url, api.WithClient(c)) }\n}\n")
+	b.WriteString("\n// passThrough: the recording middleware sits between two others, so the generated chain\n// (middleware.ChainMiddlewares) is exercised with more than one element\n")
+	b.WriteString("func passThrough(req middleware.Request, next middleware.Next) (middleware.Response, error) { return next(req) }\n")
 	return b.String()
 }
 
